@@ -215,8 +215,8 @@ let suite_cfgsim (line : string) : string =
             if List.exists (function M.Err _ -> true | M.Ok _ -> false) ps then "PROBE-ERR"
             else begin
               let l = List.map (function M.Ok p -> p | M.Err _ -> failwith "unreachable") ps in
-              let hi = M.account_health M.RInitial l in
-              let hm = M.account_health M.RMaint l in
+              let hi = M.account_health M.CRInitial l in
+              let hm = M.account_health M.CRMaint l in
               match hi, hm with
               | M.Err M.EPanic, _ | _, M.Err M.EPanic -> "PANIC"
               | _ ->
